@@ -22,7 +22,8 @@ CLASSES = {
     'K0': {'name': 'src', 'group': 'g', 'params': [{'name': 'pa'}, {'name': 'pb', 'default': None}], 'inputs': [], 'kind': 'json', 'run_args': ['pa', 'pb']},
     'K1': {'name': 't1', 'group': '', 'params': [], 'inputs': [{'by': 'class', 'ref': 'K0'}], 'kind': 'json', 'run_args': ['src']},
     'K2': {'name': 't2', 'group': 'g:h', 'params': [], 'inputs': [{'by': 'class', 'ref': 'K1'}], 'kind': 'json', 'run_args': ['t1']},
-    'K3': {'name': 't3', 'group': '', 'params': [], 'inputs': [{'by': 'name', 'ref': 'g:h:t2'}], 'kind': 'json', 'run_args': []},
+    # an in-memory task in the middle of the chain: it has no location of its own but its key must carry the difference on
+    'K3': {'name': 't3', 'group': '', 'params': [], 'inputs': [{'by': 'name', 'ref': 'g:h:t2'}], 'kind': 'memory', 'run_args': []},
     'K4': {'name': 't4', 'group': '', 'params': [], 'inputs': [{'by': 'class', 'ref': 'K3'}], 'kind': 'json', 'run_args': []},
     'K5': {'name': 't5', 'group': '', 'params': [{'name': 'pc', 'default': 0}], 'inputs': [{'by': 'class', 'ref': 'K4'}], 'kind': 'json', 'run_args': []},
     'K6': {'name': 'br', 'group': '', 'params': [], 'inputs': [{'by': 'class', 'ref': 'K2'}, {'by': 'name', 'ref': 'opt', 'default': None}], 'kind': 'json', 'run_args': []},
@@ -213,7 +214,8 @@ def run(ctx):
         else:
             affected = [n for n in ca.tasks]
         if differs:
-            same = [n for n in affected if n in cb.tasks and ca.tasks[n].data_path == cb.tasks[n].data_path]
+            same = [n for n in affected if n in cb.tasks and ca.tasks[n].data_path is not None
+                    and ca.tasks[n].data_path == cb.tasks[n].data_path]
             if same:
                 ctx.count('collision')
                 ctx.fail('two different computations share a storage location', case,
